@@ -261,7 +261,9 @@ func showGet(v []byte, err error) string {
 
 // The oracle only needs the IDENTITY of keys and values, so script tokens are mapped to real strings here:
 // keys  k7000..k7009 -> 71-byte keys that share their first 69 bytes; k8000 -> "" (empty key); k8001.. -> keys with
-//       glob characters, blanks, a slash, 300 bytes; every other k<n> -> "k<n>";
+//
+//	glob characters, blanks, a slash, 300 bytes; every other k<n> -> "k<n>";
+//
 // values 900 -> empty value, 902 -> 70 000 bytes; every other <n> -> its decimal text.
 func realKey(tok string) string {
 	n, err := strconv.Atoi(strings.TrimPrefix(tok, "k"))
@@ -1013,6 +1015,7 @@ type backend struct {
 }
 
 type monitor struct {
+	noCompare  bool // a call with a cancelled context was issued: mem and rds may differ from here on
 	frg        map[string]string // foreign-prefix keys: latest value (they never expire and nothing removes them)
 	w          *world
 	mem, rds   *backend
@@ -1255,17 +1258,26 @@ func (m *monitor) check(b *backend, o op, out string) bool {
 			if s != nil && s.alive {
 				s.alive, s.gone = false, "seen absent by a Get"
 			}
+		case out == "err" && b.name == "rds" && o.cancel:
+			// a call with a cancelled context reports an error: nothing may have happened
 		default:
 			flag("unexpected-result", fmt.Sprintf("Get %s returned %s", key, out))
 		}
 	case "del":
-		if out != "ok" {
+		switch {
+		case out == "ok":
+			// the call reported success: from now on the key must be gone (whatever the context was)
+			if s != nil && s.alive {
+				s.alive, s.gone = false, "removed (Remove returned nil)"
+			}
+		case out == "err" && b.name == "rds" && o.cancel:
+		default:
 			flag("unexpected-result", fmt.Sprintf("Remove %s returned %s", key, out))
 		}
-		if s != nil && s.alive {
-			s.alive, s.gone = false, "removed (Remove)"
-		}
 	case "clear":
+		if b.name == "rds" && o.cancel {
+			break // Clear has no result; with a cancelled context the redis-backed cache can only log and give up
+		}
 		for _, s := range b.keys {
 			if s.alive {
 				s.alive, s.gone = false, "cleared (Clear)"
@@ -1338,13 +1350,20 @@ func (m *monitor) observe(o op, mo, ro string) []corr.Hit {
 	if fm || fr {
 		m.admissible = false // the comparison is meaningless after a reported violation: the two states have diverged
 	}
-	if m.w.mode == "both" && wasAdm && !fm && !fr && mo != ro {
+	if o.cancel {
+		m.noCompare = true // cancelled contexts are outside the comparison: the in-memory cache ignores ctx
+	}
+	if m.w.mode == "both" && wasAdm && !m.noCompare && !fm && !fr && mo != ro {
 		m.add("C05:rds:disagrees-with-mem", fmt.Sprintf("inside the comparison domain (positive ttls, keep-ttl on live keys, clock off every deadline, keys <= size) `%s` gave %s in memory and %s on redis", opText(o), mo, ro))
 	}
 	return m.finish()
 }
 
 func opText(o op) string {
+	if o.cancel {
+		o.cancel = false
+		return "(cancelled ctx) " + opText(o)
+	}
 	switch o.kind {
 	case "set":
 		t := "-"
